@@ -783,11 +783,26 @@ func Zipper(rng *fw.Rng, W int64) Poly {
 }
 
 func Huge(rng *fw.Rng, W int64) Poly {
-	k := int64(23 + rng.Intn(8))
+	k := int64(23 + rng.Intn(14))   // 529 .. 1296 holes
 	pitch := int64(5 + rng.Intn(6)) // q between hole origins
 	hs := int64(1 + rng.Intn(3))    // hole size in q
+	roofed := rng.Chance(1, 2)
+	if roofed { // holes of 2-3 pixels that survive as holes at the level where a pixel is 4 q: more than 1024 inner rings in the result
+		pitch = int64(16 + 4*rng.Intn(3))
+		hs = int64(8 + rng.Intn(4))
+		if rng.Chance(2, 3) {
+			k = int64(33 + rng.Intn(4))
+		}
+	}
 	size := k*pitch + 4
 	p := Poly{{{0, 0}, {size, 0}, {size, size}, {0, size}}}
+	if roofed {
+		// a roofed sheet: the shell's LAST vertex is a pointed apex (a strict extreme that no other vertex shares an ordinate
+		// with), and one more hole lies under the roof, beyond the envelope of all the other shell vertices
+		ax, ay := size/2+int64(rng.Intn(5)), size+int64(32+4*rng.Intn(6))
+		p = Poly{{{0, size}, {0, 0}, {size, 0}, {size, size}, {ax, ay}}}
+		p = append(p, []P{{ax - 20, size + 6}, {ax + 20, size + 6}, {ax, size + 22}}) // 10 x 4 pixels: room for points far from its boundary
+	}
 	for i := int64(0); i < k; i++ {
 		for j := int64(0); j < k; j++ {
 			x, y := 3+i*pitch, 3+j*pitch
